@@ -4,6 +4,7 @@ def b_Intersection_create_node : CR.SrcW.Builder where
   kind := .node
   tag := "intersection"
   xsd := "intersection"
+  path := []
   parent := ""
   attrs := [("id", (.str "_.intersection_id"))]
   gattrs := []
@@ -21,7 +22,8 @@ def b_Intersection_create_node_crossing : CR.SrcW.Builder where
   key := "IntersectionXMLNode.create_node/crossing"
   kind := .node
   tag := "crossing"
-  xsd := ""
+  xsd := "intersection"
+  path := ["crossing"]
   parent := "IntersectionXMLNode.create_node"
   attrs := []
   gattrs := []
@@ -35,10 +37,11 @@ def b_Intersection_create_node_crossing_crossingLanelet : CR.SrcW.Builder where
   key := "IntersectionXMLNode.create_node/crossing/crossingLanelet"
   kind := .node
   tag := "crossingLanelet"
-  xsd := ""
+  xsd := "intersection"
+  path := ["crossing", "crossingLanelet"]
   parent := "IntersectionXMLNode.create_node/crossing"
-  attrs := []
-  gattrs := [("ref", (.str "it1"))]
+  attrs := [("ref", (.str "it1"))]
+  gattrs := []
   text := none
   atoms := []
   body :=
@@ -48,10 +51,11 @@ def b_Intersection_create_node_incoming : CR.SrcW.Builder where
   key := "IntersectionXMLNode.create_node/incoming"
   kind := .node
   tag := "incoming"
-  xsd := ""
+  xsd := "intersection"
+  path := ["incoming"]
   parent := "IntersectionXMLNode.create_node"
-  attrs := []
-  gattrs := [("id", (.str "it1.incoming_id"))]
+  attrs := [("id", (.str "it1.incoming_id"))]
+  gattrs := []
   text := none
   atoms := []
   body :=
@@ -81,10 +85,11 @@ def b_Intersection_create_node_incoming_isLeftOf : CR.SrcW.Builder where
   key := "IntersectionXMLNode.create_node/incoming/isLeftOf"
   kind := .node
   tag := "isLeftOf"
-  xsd := ""
+  xsd := "intersection"
+  path := ["incoming", "isLeftOf"]
   parent := "IntersectionXMLNode.create_node/incoming"
-  attrs := []
-  gattrs := [("ref", (.str "it1.left_of"))]
+  attrs := [("ref", (.str "it1.left_of"))]
+  gattrs := []
   text := none
   atoms := []
   body :=
@@ -94,10 +99,11 @@ def b_Intersection_create_node_incoming_successorsLeft : CR.SrcW.Builder where
   key := "IntersectionXMLNode.create_node/incoming/successorsLeft"
   kind := .node
   tag := "successorsLeft"
-  xsd := ""
+  xsd := "intersection"
+  path := ["incoming", "successorsLeft"]
   parent := "IntersectionXMLNode.create_node/incoming"
-  attrs := []
-  gattrs := [("ref", (.str "it2"))]
+  attrs := [("ref", (.str "it2"))]
+  gattrs := []
   text := none
   atoms := []
   body :=
@@ -107,10 +113,11 @@ def b_Intersection_create_node_incoming_successorsStraight : CR.SrcW.Builder whe
   key := "IntersectionXMLNode.create_node/incoming/successorsStraight"
   kind := .node
   tag := "successorsStraight"
-  xsd := ""
+  xsd := "intersection"
+  path := ["incoming", "successorsStraight"]
   parent := "IntersectionXMLNode.create_node/incoming"
-  attrs := []
-  gattrs := [("ref", (.str "it2"))]
+  attrs := [("ref", (.str "it2"))]
+  gattrs := []
   text := none
   atoms := []
   body :=
@@ -120,10 +127,11 @@ def b_Intersection_create_node_incoming_successorsRight : CR.SrcW.Builder where
   key := "IntersectionXMLNode.create_node/incoming/successorsRight"
   kind := .node
   tag := "successorsRight"
-  xsd := ""
+  xsd := "intersection"
+  path := ["incoming", "successorsRight"]
   parent := "IntersectionXMLNode.create_node/incoming"
-  attrs := []
-  gattrs := [("ref", (.str "it2"))]
+  attrs := [("ref", (.str "it2"))]
+  gattrs := []
   text := none
   atoms := []
   body :=
@@ -133,10 +141,11 @@ def b_Intersection_create_node_incoming_incomingLanelet : CR.SrcW.Builder where
   key := "IntersectionXMLNode.create_node/incoming/incomingLanelet"
   kind := .node
   tag := "incomingLanelet"
-  xsd := ""
+  xsd := "intersection"
+  path := ["incoming", "incomingLanelet"]
   parent := "IntersectionXMLNode.create_node/incoming"
-  attrs := []
-  gattrs := [("ref", (.str "it2"))]
+  attrs := [("ref", (.str "it2"))]
+  gattrs := []
   text := none
   atoms := []
   body :=
